@@ -94,6 +94,7 @@ func c09Batch(r *vc.Run, bi int, cfg atUndoCfg, n int) {
 			if many {
 				k = 3
 			}
+			o.shuffleCols = rnd.Bool()
 			st = atGenInsert(rnd, t, o, k, &seq)
 		default:
 			st = atGenUpsert(rnd, t, o, rnd.Bool(), &seq)
